@@ -150,6 +150,15 @@ public:
   double ComparisonEps(var::Type vartype) const {
     return var::INTEGER==vartype ? 1.0 : cmpEpsContinuous();
   }
+  /// Right-hand side of the non-strict form of
+  /// body < rhs (dir<0) or body > rhs (dir>0).
+  /// For an integer-valued body this is the nearest integer
+  /// beyond rhs, which differs from rhs -/+ 1 for a fractional rhs.
+  double StrictRhs(var::Type bodytype, double rhs, int dir) const {
+    if (var::INTEGER==bodytype)
+      return dir<0 ? std::ceil(rhs)-1.0 : std::floor(rhs)+1.0;
+    return rhs + dir*cmpEpsContinuous();
+  }
 
 
   ///////////////////////////////////////////////////////////////////////
